@@ -5,7 +5,7 @@
    far), whatever the iteration order, in both return modes; for every fuel the run returns
    exactly when the first stop index (infectious set empty or horizon reached) is within the
    fuel, and exhausts the fuel otherwise (a recovery test that never succeeds, tmax = None). *)
-From EoNV Require Import Prelude Samp Graph Discrete DiscreteP DiscreteRun DiscreteBfsRec.
+From EoNV Require Import Prelude Samp Graph Discrete DiscreteP DiscreteRun DiscreteC05 DiscreteBfsRec.
 From Coq Require Import Permutation Lqa.
 
 Section RunRec.
@@ -236,3 +236,107 @@ Proof.
   - destruct Hst as [_ Hst]. rewrite (Hj K HK) in Hst. discriminate.
   - exists o. exact Hr.
 Qed.
+
+(* ------------------------------------------------------------------ *)
+(* what the pure sequence is, in terms of breadth-first distance        *)
+
+Section Meaning.
+Variable g : graph.
+Variable tt : node -> node -> nat -> bool.
+Variable f : node -> nat -> bool.
+Variables i0 r0 : list node.
+Variable tmin : Q.
+Variable tmax : xtime.
+Variable full : bool.
+Hypothesis Hwf : wf_inputb g i0 r0 = true.
+
+Notation T := (T0 tt).
+Notation DIST := (bfs_dist g T i0 r0).
+
+(* (a) K + 1 rows, row k at time tq k with S_k + I_k + R_k = N *)
+Lemma rows_meaning : forall K,
+  length (map (rrow g tt f i0 r0 tmin) (seq 0 (S K))) = S K /\
+  forall k, (k <= K)%nat ->
+    nth_error (map (rrow g tt f i0 r0 tmin) (seq 0 (S K))) k =
+      Some (tq tmin k, [lenZ (Sg g T i0 r0 k); lenZ (Jr g tt f i0 r0 k); Rr g tt f i0 r0 k]) /\
+    (lenZ (Sg g T i0 r0 k) + lenZ (Jr g tt f i0 r0 k) + Rr g tt f i0 r0 k)%Z = order g.
+Proof.
+  intro K. destruct (wf_input_props g i0 r0 Hwf) as [Hnd [Hadj [Hi0 [Hr0 [Hi0nd [Hr0nd Hdisj]]]]]].
+  split; [rewrite map_length, seq_length; reflexivity|]. intros k Hk. split.
+  - rewrite nth_error_map. rewrite (nth_error_nth' (seq 0 (S K)) O) by (rewrite seq_length; lia).
+    rewrite seq_nth by lia. reflexivity.
+  - apply r_conserve; assumption.
+Qed.
+
+(* (b) S_k = nodes outside r0 without a walk of length <= k; the nodes leaving S at step k + 1
+   are exactly breadth-first level k + 1; level 0 = the initially infected nodes *)
+Lemma levels_meaning : forall k v,
+  (In v (Sg g T i0 r0 k) <-> In v (gnodes g) /\ ~ In v r0 /\ forall m, (m <= k)%nat -> ~ walk g T i0 r0 v m) /\
+  ((In v (Sg g T i0 r0 k) /\ ~ In v (Sg g T i0 r0 (S k))) <-> DIST v (S k)) /\
+  (In v (Ig g T i0 r0 k) <-> DIST v k) /\
+  (DIST v O <-> In v i0).
+Proof.
+  intros k v. destruct (wf_input_props g i0 r0 Hwf) as [Hnd [Hadj [Hi0 [Hr0 [Hi0nd [Hr0nd Hdisj]]]]]].
+  split; [apply SG_spec; assumption|]. split; [apply newly_infected_level; assumption|].
+  split; [apply gen_is_bfs; assumption|]. split.
+  - intros [W _]. inversion W. assumption.
+  - intro H. split; [constructor; exact H|]. intros m Hm. lia.
+Qed.
+
+(* (c) infectious after k steps = infected at a step j <= k with all k - j tests so far failed;
+   R_k = |r0| + number of nodes infected so far that are no longer infectious *)
+Lemma infectious_meaning : forall k,
+  (forall u, In u (Jr g tt f i0 r0 k) <->
+     exists j, (j <= k)%nat /\ DIST u j /\ forall a, (a < k - j)%nat -> f u a = false) /\
+  (forall u, In u (Jr g tt f i0 r0 k) -> In u (Jr g tt f i0 r0 (S k)) <-> f u (ag g tt f i0 r0 k u) = false) /\
+  (forall u j, DIST u j -> In u (Jr g tt f i0 r0 k) -> ag g tt f i0 r0 k u = (k - j)%nat) /\
+  Rr g tt f i0 r0 k = (lenZ r0 + lenZ (done_r g tt f i0 r0 k))%Z /\
+  (forall v, In v (done_r g tt f i0 r0 k) <->
+     In v (gnodes g) /\ ~ In v (Sg g T i0 r0 k) /\ ~ In v r0 /\ ~ In v (Jr g tt f i0 r0 k)).
+Proof.
+  intro k. destruct (wf_input_props g i0 r0 Hwf) as [Hnd [Hadj [Hi0 [Hr0 [Hi0nd [Hr0nd Hdisj]]]]]].
+  split.
+  { intro u. rewrite (Jr_spec g tt f i0 r0 Hadj Hi0 k u). split; intros [j [Hj [Hl Ha]]]; exists j; (split; [exact Hj|]); (split; [|exact Ha]);
+      apply (gen_is_bfs g T i0 r0 Hadj Hi0); exact Hl. }
+  split.
+  { intros u Hu. rewrite Jr_S, filter_In. split.
+    - intros [_ H]. apply orb_true_iff in H. destruct H as [H|H].
+      + exfalso. apply dmem_In in H. destruct (Jr_levels g tt f i0 r0 k u Hu) as [j [Hj Hl]].
+        pose proof (lvl_unique g tt i0 r0 Hadj Hi0 u _ _ H Hl). lia.
+      + apply andb_true_iff in H. apply negb_true_iff. apply H.
+    - intro Hf. split; [apply (Jr_sub g tt f i0 r0 k); exact Hu|]. apply dmem_In in Hu. rewrite Hu, Hf. apply orb_true_r. }
+  split.
+  { intros u j Hd Hu. apply ag_spec; try assumption. apply (gen_is_bfs g T i0 r0 Hadj Hi0). exact Hd. }
+  split; [apply Rr_spec; assumption|].
+  intro v. unfold done_r. rewrite filter_In, !andb_true_iff, !negb_true_iff, !dmem_false. tauto.
+Qed.
+
+(* (d) node histories: I entry at tq (k+1) iff v is at breadth-first distance k + 1 (within the
+   horizon), R entry at tq (k+1) iff v was infected at some step j <= k and its test number
+   k - j is the first that succeeds *)
+Lemma history_meaning : forall K v e, In e (events_r g tt f i0 r0 tmin tmax full K v) <->
+  exists k, (k < K)%nat /\
+    ((e = (tq tmin (S k), stI) /\ full && le_x (tq tmin (S k)) tmax = true /\ DIST v (S k)) \/
+     (e = (tq tmin (S k), stR) /\ full = true /\
+      exists j, (j <= k)%nat /\ DIST v j /\ (forall a, (a < k - j)%nat -> f v a = false) /\ f v (k - j)%nat = true)).
+Proof.
+  intros K v e. destruct (wf_input_props g i0 r0 Hwf) as [Hnd [Hadj [Hi0 [Hr0 [Hi0nd [Hr0nd Hdisj]]]]]].
+  rewrite events_r_spec. split; intros [k [Hk H]]; exists k; (split; [exact Hk|]); destruct H as [[He [Hg H]]|[He [Hg H]]].
+  - left. split; [exact He|]. split; [exact Hg|]. apply (gen_is_bfs g T i0 r0 Hadj Hi0). exact H.
+  - right. split; [exact He|]. split; [exact Hg|]. apply (recd_spec g tt f i0 r0 Hadj Hi0) in H.
+    destruct H as [j [Hj [Hl H]]]. exists j. split; [exact Hj|]. split; [|exact H]. apply (gen_is_bfs g T i0 r0 Hadj Hi0). exact Hl.
+  - left. split; [exact He|]. split; [exact Hg|]. apply (gen_is_bfs g T i0 r0 Hadj Hi0). exact H.
+  - right. split; [exact He|]. split; [exact Hg|]. apply (recd_spec g tt f i0 r0 Hadj Hi0).
+    destruct H as [j [Hj [Hl H]]]. exists j. split; [exact Hj|]. split; [|exact H]. apply (gen_is_bfs g T i0 r0 Hadj Hi0). exact Hl.
+Qed.
+
+(* for horizons of whole steps every executed step is within the horizon *)
+Lemma guard_whole_steps : forall K k, whole_steps tmin tmax -> first_stop_r g tt f i0 r0 tmin tmax K -> (k < K)%nat ->
+  le_x (tq tmin (S k)) tmax = true.
+Proof.
+  intros K k Hw [Hj _] Hk. specialize (Hj k Hk). unfold stopr in Hj. apply negb_false_iff in Hj.
+  apply andb_true_iff in Hj. destruct Hj as [_ Hlt]. cbn [tq].
+  apply (whole_steps_next tmin tmax (tq tmin k) k Hw (tq_spec tmin k) Hlt).
+Qed.
+
+End Meaning.
